@@ -65,6 +65,12 @@
 	; Therefore, *_dispatch_init is only executed on first call.
 	;;;;
 	section .data
+%ifdef ISAL_CRYPTO_VERIF
+	;; verification hook: let a harness read and re-arm the binding and run the resolver alone
+	global %1_dispatched
+	global %1_mbinit
+	global %1_dispatch_init
+%endif
 	%1_dispatched:
 		mbin_def_ptr	%1_mbinit
 
